@@ -1,7 +1,402 @@
 import NeumannModel.Chain.Model
 /-
-  C16 — helper lemmas for the chain model.
+  C16 — helper definitions and lemmas for the chain model.
 -/
 namespace Neumann.Chain
+
+/-! ### hypotheses about the opaque functions -/
+
+/-- SHA-256 is injective on the byte strings that occur (`occ`) -/
+def HashInjOn (C : Crypto) (occ : List Nat → Prop) : Prop :=
+  ∀ x y, occ x → occ y → C.hash x = C.hash y → x = y
+
+/-- unforgeability on the occurring values: a `(message, signature)` pair verifies under key `k`
+    only if the holder of `k` produced it (`signed` lists what the validators signed) -/
+def SigSound (C : Crypto) (signed : List (Nat × List Nat × List Nat)) : Prop :=
+  ∀ k m s, C.verify k m s = true → (k, m, s) ∈ signed
+
+/-- `sign` produces non-empty signatures that verify -/
+def SignCorrect (C : Crypto) : Prop :=
+  ∀ k m, C.sign k m ≠ [] ∧ C.verify k m (C.sign k m) = true
+
+/-- the integer fields fit their Rust types -/
+def Header.WF (h : Header) : Prop :=
+  h.height < 2 ^ 64 ∧ h.timestamp < 2 ^ 64 ∧ ∀ c ∈ h.codes, c < 2 ^ 16
+
+/-! ### little-endian bytes -/
+
+theorem leBytes_length (n v : Nat) : (leBytes n v).length = n := by
+  induction n generalizing v with
+  | zero => rfl
+  | succ n ih => simp [leBytes, ih]
+
+theorem leBytes_inj (n : Nat) : ∀ (a b : Nat), a < 256 ^ n → b < 256 ^ n → leBytes n a = leBytes n b → a = b := by
+  induction n with
+  | zero => intro a b ha hb _; simp at ha hb; omega
+  | succ n ih =>
+    intro a b ha hb h
+    simp only [leBytes, List.cons.injEq] at h
+    have h1 : a / 256 < 256 ^ n := by
+      apply Nat.div_lt_of_lt_mul; rw [Nat.pow_succ] at ha; omega
+    have h2 : b / 256 < 256 ^ n := by
+      apply Nat.div_lt_of_lt_mul; rw [Nat.pow_succ] at hb; omega
+    have := ih _ _ h1 h2 h.2
+    omega
+
+theorem leBytes8_inj (a b : Nat) (ha : a < 2 ^ 64) (hb : b < 2 ^ 64) (h : leBytes 8 a = leBytes 8 b) : a = b :=
+  leBytes_inj 8 a b (by simpa using ha) (by simpa using hb) h
+
+theorem flatMap_leBytes2_inj : ∀ (xs ys : List Nat), (∀ c ∈ xs, c < 2 ^ 16) → (∀ c ∈ ys, c < 2 ^ 16) →
+    xs.flatMap (leBytes 2) = ys.flatMap (leBytes 2) → xs = ys := by
+  intro xs
+  induction xs with
+  | nil =>
+    intro ys _ _ h
+    cases ys with
+    | nil => rfl
+    | cons y ys => simp [List.flatMap_cons, leBytes] at h
+  | cons x xs ih =>
+    intro ys hx hy h
+    cases ys with
+    | nil => simp [List.flatMap_cons, leBytes] at h
+    | cons y ys =>
+      simp only [List.flatMap_cons] at h
+      have hl : (leBytes 2 x).length = (leBytes 2 y).length := by simp [leBytes_length]
+      have h' := List.append_inj h hl
+      have hxy : x = y := leBytes_inj 2 x y (by simpa using hx x (by simp)) (by simpa using hy y (by simp)) h'.1
+      have := ih ys (fun c hc => hx c (by simp [hc])) (fun c hc => hy c (by simp [hc])) h'.2
+      rw [hxy, this]
+
+/-- the height can be read back from the signing bytes -/
+theorem bytes_height (h1 h2 : Header) (w1 : h1.height < 2 ^ 64) (w2 : h2.height < 2 ^ 64)
+    (h : h1.bytes = h2.bytes) : h1.height = h2.height := by
+  unfold Header.bytes at h
+  have hl : (leBytes 8 h1.height).length = (leBytes 8 h2.height).length := by simp [leBytes_length]
+  exact leBytes8_inj _ _ w1 w2 (List.append_inj h hl).1
+
+/-! ### the store -/
+
+theorem sget_sput_same (s : List (SKey × SVal)) (k : SKey) (v : SVal) : sget (sput s k v) k = some v := by
+  induction s with
+  | nil => simp [sput, sget]
+  | cons kv r ih =>
+    obtain ⟨k', v'⟩ := kv
+    simp only [sput]
+    split
+    · simp [sget]
+    · split
+      · simp [sget]
+      · rename_i hne _
+        simp [sget, hne, ih]
+
+theorem sget_sput_ne (s : List (SKey × SVal)) (k k' : SKey) (v : SVal) (hne : k ≠ k') :
+    sget (sput s k v) k' = sget s k' := by
+  induction s with
+  | nil => simp [sput, sget, hne]
+  | cons kv r ih =>
+    obtain ⟨k2, v2⟩ := kv
+    simp only [sput]
+    split
+    · rename_i heq
+      subst heq
+      simp [sget, hne]
+    · split
+      · simp [sget, hne]
+      · simp [sget, ih]
+
+theorem sget_sdel_same (s : List (SKey × SVal)) (k : SKey) : sget (sdel s k) k = none := by
+  induction s with
+  | nil => rfl
+  | cons kv r ih =>
+    obtain ⟨k2, v2⟩ := kv
+    simp only [sdel]
+    split
+    · exact ih
+    · rename_i hne
+      simp [sget, hne, ih]
+
+theorem sget_sdel_ne (s : List (SKey × SVal)) (k k' : SKey) (hne : k ≠ k') : sget (sdel s k) k' = sget s k' := by
+  induction s with
+  | nil => rfl
+  | cons kv r ih =>
+    obtain ⟨k2, v2⟩ := kv
+    simp only [sdel]
+    split
+    · rename_i heq
+      subst heq
+      simp [sget, hne, ih]
+    · simp [sget, ih]
+
+theorem blockAt_sput_same (s : List (SKey × SVal)) (i : Nat) (b : Block) :
+    blockAt (sput s (.block i) (.block b)) i = some b := by
+  simp [blockAt, sget_sput_same]
+
+theorem blockAt_sput_ne (s : List (SKey × SVal)) (k : SKey) (v : SVal) (j : Nat) (hne : k ≠ .block j) :
+    blockAt (sput s k v) j = blockAt s j := by
+  simp [blockAt, sget_sput_ne _ _ _ _ hne]
+
+theorem blockAt_sdel_same (s : List (SKey × SVal)) (i : Nat) : blockAt (sdel s (.block i)) i = none := by
+  simp [blockAt, sget_sdel_same]
+
+theorem blockAt_sdel_ne (s : List (SKey × SVal)) (k : SKey) (j : Nat) (hne : k ≠ .block j) :
+    blockAt (sdel s k) j = blockAt s j := by
+  simp [blockAt, sget_sdel_ne _ _ _ hne]
+
+theorem blockAt_applyTxs (s : List (SKey × SVal)) (txs : List Tx) (j : Nat) : blockAt (applyTxs s txs) j = blockAt s j := by
+  unfold applyTxs
+  induction txs generalizing s with
+  | nil => rfl
+  | cons t ts ih =>
+    simp only [List.foldl_cons]
+    rw [ih]
+    cases t with
+    | put k v => exact blockAt_sput_ne _ _ _ _ (by simp)
+    | del k => exact blockAt_sdel_ne _ _ _ (by simp)
+
+/-! ### `verify_chain` is sound and complete for the pointwise link predicate -/
+
+/-- every block `1..=height` is present and passes `checkLink` against its stored predecessor -/
+def ChainOK (C : Crypto) (reg : Option (List (List Nat × Nat))) (c : ChainSt) : Prop :=
+  (∃ g, blockAt c.store 0 = some g) ∧
+  ∀ i, 1 ≤ i → i ≤ c.height →
+    ∃ p b, blockAt c.store (i - 1) = some p ∧ blockAt c.store i = some b ∧ checkLink C reg p b = none
+
+theorem verifyFrom_sound (C : Crypto) (reg : Option (List (List Nat × Nat))) (s : List (SKey × SVal)) :
+    ∀ (n : Nat) (prev : Block) (h : Nat), 1 ≤ h → blockAt s (h - 1) = some prev → verifyFrom C reg s prev h n = none →
+      ∀ i, h ≤ i → i < h + n →
+        ∃ p b, blockAt s (i - 1) = some p ∧ blockAt s i = some b ∧ checkLink C reg p b = none := by
+  intro n
+  induction n with
+  | zero => intro prev h _ _ _ i h1 h2; omega
+  | succ n ih =>
+    intro prev h hh hprev hv i h1 h2
+    simp only [verifyFrom] at hv
+    cases hb : blockAt s h with
+    | none => simp [hb] at hv
+    | some b =>
+      simp only [hb] at hv
+      cases hc : checkLink C reg prev b with
+      | some e => simp [hc] at hv
+      | none =>
+        simp only [hc] at hv
+        by_cases hi : i = h
+        · subst hi
+          exact ⟨prev, b, hprev, hb, hc⟩
+        · exact ih b (h + 1) (by omega) (by simpa using hb) hv i (by omega) (by omega)
+
+theorem verifyFrom_complete (C : Crypto) (reg : Option (List (List Nat × Nat))) (s : List (SKey × SVal)) :
+    ∀ (n : Nat) (prev : Block) (h : Nat), 1 ≤ h → blockAt s (h - 1) = some prev →
+      (∀ i, h ≤ i → i < h + n →
+        ∃ p b, blockAt s (i - 1) = some p ∧ blockAt s i = some b ∧ checkLink C reg p b = none) →
+      verifyFrom C reg s prev h n = none := by
+  intro n
+  induction n with
+  | zero => intro prev h _ _ _; rfl
+  | succ n ih =>
+    intro prev h hh hprev hall
+    obtain ⟨p, b, hp, hb, hc⟩ := hall h (by omega) (by omega)
+    rw [hprev] at hp
+    cases hp
+    simp only [verifyFrom, hb, hc]
+    exact ih b (h + 1) (by omega) (by simpa using hb) (fun i h1 h2 => hall i (by omega) (by omega))
+
+theorem verify_sound (C : Crypto) (reg : Option (List (List Nat × Nat))) (c : ChainSt)
+    (hv : verifyChain C reg c = none) (hh : 1 ≤ c.height) : ChainOK C reg c := by
+  unfold verifyChain at hv
+  have : ¬ c.height = 0 := by omega
+  simp only [this, if_false] at hv
+  cases hg : blockAt c.store 0 with
+  | none => simp [hg] at hv
+  | some g =>
+    simp only [hg] at hv
+    refine ⟨⟨g, hg⟩, ?_⟩
+    intro i h1 h2
+    exact verifyFrom_sound C reg c.store c.height g 1 (by omega) (by simpa using hg) hv i h1 (by omega)
+
+theorem verify_complete (C : Crypto) (reg : Option (List (List Nat × Nat))) (c : ChainSt)
+    (hok : ChainOK C reg c) : verifyChain C reg c = none := by
+  unfold verifyChain
+  by_cases h0 : c.height = 0
+  · simp [h0]
+  · obtain ⟨⟨g, hg⟩, hall⟩ := hok
+    simp only [h0, if_false, hg]
+    exact verifyFrom_complete C reg c.store c.height g 1 (by omega) (by simpa using hg)
+      (fun i h1 h2 => hall i h1 (by omega))
+
+/-! ### the invariant maintained by `initialize` and `append` -/
+
+/-- what every chain built through `initialize` / `append` satisfies -/
+structure Inv (C : Crypto) (reg : Option (List (List Nat × Nat))) (c : ChainSt) : Prop where
+  ok : ChainOK C reg c
+  heights : ∀ i, i ≤ c.height → ∃ b, blockAt c.store i = some b ∧ b.header.height = i
+  tip : ∃ t, blockAt c.store c.height = some t ∧ c.tip = t.header.hash C
+
+theorem inv_init (C : Crypto) (reg : Option (List (List Nat × Nat))) (s : List (SKey × SVal)) (p : List Nat) (ts : Nat) :
+    Inv C reg (initChain C s p ts) := by
+  have hb : blockAt (initChain C s p ts).store 0 = some (genesisBlock C p ts) := by
+    simp only [initChain]
+    rw [blockAt_sput_ne _ _ _ _ (by simp), blockAt_sput_same]
+  refine ⟨⟨⟨_, hb⟩, ?_⟩, ?_, ?_⟩
+  · intro i h1 h2
+    simp [initChain] at h2
+    omega
+  · intro i hi
+    have : i = 0 := by simp [initChain] at hi; omega
+    subst this
+    exact ⟨_, hb, rfl⟩
+  · exact ⟨_, hb, rfl⟩
+
+/-- the successful branch of `append`, spelled out -/
+theorem append_ok_inv (C : Crypto) (reg : Option (List (List Nat × Nat))) (c c' : ChainSt) (b : Block)
+    (h : append C reg c b = .ok c') :
+    let b' := fixTxRoot C b
+    b.header.height = c.height + 1 ∧ b.header.prevHash = c.tip ∧ b'.header.txRoot = txRoot C b'.txs ∧
+    (c.height + 1 > 1 → b'.header.signature ≠ [] ∧ regSigOk C reg b'.header = true) ∧
+    c' = { store := sput (sput c.store (.block (c.height + 1)) (.block b')) .chainMeta (.height (c.height + 1)),
+           height := c.height + 1, tip := b'.header.hash C } := by
+  unfold append at h
+  simp only at h
+  split at h
+  · cases h
+  · split at h
+    · cases h
+    · split at h
+      · cases h
+      · split at h
+        · cases h
+        · split at h
+          · cases h
+          · rename_i h1 h2 h3 h4 h5
+            have hfix : (fixTxRoot C b).txs = b.txs := by
+              unfold fixTxRoot; split <;> rfl
+            refine ⟨by simpa using h1, by simpa using h2, ?_, ?_, ?_⟩
+            · simpa using h3
+            · intro hgt
+              refine ⟨?_, ?_⟩
+              · intro he; exact h4 ⟨hgt, he⟩
+              · cases hr : regSigOk C reg (fixTxRoot C b).header with
+                | true => rfl
+                | false => exact absurd ⟨hgt, hr⟩ h5
+            · cases h; rfl
+
+theorem fixTxRoot_height (C : Crypto) (b : Block) : (fixTxRoot C b).header.height = b.header.height := by
+  unfold fixTxRoot; split <;> rfl
+theorem fixTxRoot_prev (C : Crypto) (b : Block) : (fixTxRoot C b).header.prevHash = b.header.prevHash := by
+  unfold fixTxRoot; split <;> rfl
+theorem fixTxRoot_ts (C : Crypto) (b : Block) : (fixTxRoot C b).header.timestamp = b.header.timestamp := by
+  unfold fixTxRoot; split <;> rfl
+
+/-- `append` keeps the invariant, given the two facts `verify_chain` checks but `append` does not:
+    the timestamp does not go back, and (when a registry is set) the block at height 1 carries a
+    valid signature too -/
+theorem inv_append (C : Crypto) (reg : Option (List (List Nat × Nat))) (c c' : ChainSt) (b : Block)
+    (hinv : Inv C reg c) (h : append C reg c b = .ok c')
+    (hts : ∀ t, blockAt c.store c.height = some t → t.header.timestamp ≤ b.header.timestamp)
+    (hsig1 : c.height = 0 → regSigOk C reg (fixTxRoot C b).header = true) :
+    Inv C reg c' := by
+  obtain ⟨hh, hp, htx, hsig, hc'⟩ := append_ok_inv C reg c c' b h
+  obtain ⟨t, htip, htiph⟩ := hinv.tip
+  obtain ⟨t', ht', hth⟩ := hinv.heights c.height (Nat.le_refl _)
+  rw [htip] at ht'; cases ht'
+  subst hc'
+  -- lookups in the new store
+  have hnew : blockAt (sput (sput c.store (.block (c.height + 1)) (.block (fixTxRoot C b))) .chainMeta (.height (c.height + 1)))
+      (c.height + 1) = some (fixTxRoot C b) := by
+    rw [blockAt_sput_ne _ _ _ _ (by simp), blockAt_sput_same]
+  have hold : ∀ j, j ≤ c.height →
+      blockAt (sput (sput c.store (.block (c.height + 1)) (.block (fixTxRoot C b))) .chainMeta (.height (c.height + 1))) j
+        = blockAt c.store j := by
+    intro j hj
+    rw [blockAt_sput_ne _ _ _ _ (by simp), blockAt_sput_ne _ _ _ _ (by simp; omega)]
+  have hlink : checkLink C reg t (fixTxRoot C b) = none := by
+    have hs : regSigOk C reg (fixTxRoot C b).header = true := by
+      by_cases h0 : c.height = 0
+      · exact hsig1 h0
+      · exact (hsig (by omega)).2
+    unfold checkLink
+    simp only [fixTxRoot_height, fixTxRoot_prev, fixTxRoot_ts, hh, hth, hp, htiph, Header.hash, htx, hs]
+    have := hts t htip
+    simp [Nat.not_lt.mpr this]
+  refine ⟨⟨?_, ?_⟩, ?_, ?_⟩
+  · obtain ⟨g, hg⟩ := hinv.ok.1
+    exact ⟨g, by rw [hold 0 (Nat.zero_le _)]; exact hg⟩
+  · intro i h1 h2
+    simp only at h2
+    by_cases hi : i = c.height + 1
+    · subst hi
+      refine ⟨t, fixTxRoot C b, ?_, hnew, hlink⟩
+      simp only [Nat.add_sub_cancel]
+      rw [hold _ (Nat.le_refl _)]; exact htip
+    · obtain ⟨p, b2, hp2, hb2, hc2⟩ := hinv.ok.2 i h1 (by omega)
+      exact ⟨p, b2, by rw [hold _ (by omega)]; exact hp2, by rw [hold _ (by omega)]; exact hb2, hc2⟩
+  · intro i hi
+    simp only at hi
+    by_cases hi' : i = c.height + 1
+    · subst hi'
+      exact ⟨_, hnew, by rw [fixTxRoot_height]; exact hh⟩
+    · obtain ⟨b2, hb2, hh2⟩ := hinv.heights i (by omega)
+      exact ⟨b2, by rw [hold _ (by omega)]; exact hb2, hh2⟩
+  · exact ⟨_, hnew, rfl⟩
+
+/-! ### what the validators signed: the `(key, signing bytes, signature)` of the stored blocks `1..=n` -/
+
+def signedOf (reg : List (List Nat × Nat)) (s : List (SKey × SVal)) : Nat → List (Nat × List Nat × List Nat)
+  | 0 => []
+  | n + 1 =>
+    (match blockAt s (n + 1) with
+      | some b =>
+        match regLookup reg b.header.proposer with
+        | some k => [(k, b.header.bytes, b.header.signature)]
+        | none => []
+      | none => []) ++ signedOf reg s n
+
+theorem mem_signedOf (reg : List (List Nat × Nat)) (s : List (SKey × SVal)) (n : Nat) (t : Nat × List Nat × List Nat)
+    (h : t ∈ signedOf reg s n) :
+    ∃ j b, 1 ≤ j ∧ j ≤ n ∧ blockAt s j = some b ∧ t.2.1 = b.header.bytes ∧ t.2.2 = b.header.signature := by
+  induction n with
+  | zero => simp [signedOf] at h
+  | succ n ih =>
+    simp only [signedOf, List.mem_append] at h
+    rcases h with h | h
+    · cases hb : blockAt s (n + 1) with
+      | none => simp [hb] at h
+      | some b =>
+        simp only [hb] at h
+        cases hk : regLookup reg b.header.proposer with
+        | none => simp [hk] at h
+        | some k =>
+          simp only [hk, List.mem_singleton] at h
+          subst h
+          exact ⟨n + 1, b, by omega, by omega, hb, rfl, rfl⟩
+    · obtain ⟨j, b, h1, h2, h3⟩ := ih h
+      exact ⟨j, b, h1, by omega, h3⟩
+
+theorem regSigOk_some (C : Crypto) (r : List (List Nat × Nat)) (h : Header) (hs : regSigOk C (some r) h = true) :
+    ∃ k, regLookup r h.proposer = some k ∧ C.verify k h.bytes h.signature = true := by
+  simp only [regSigOk, sigOk] at hs
+  split at hs
+  · cases hs
+  · split at hs
+    · cases hs
+    · rename_i k hk
+      exact ⟨k, hk, hs⟩
+
+theorem checkLink_none (C : Crypto) (reg : Option (List (List Nat × Nat))) (p b : Block)
+    (h : checkLink C reg p b = none) :
+    b.header.height = p.header.height + 1 ∧ b.header.prevHash = p.header.hash C ∧
+    b.header.txRoot = txRoot C b.txs ∧ p.header.timestamp ≤ b.header.timestamp ∧ regSigOk C reg b.header = true := by
+  unfold checkLink at h
+  split at h
+  · cases h
+  · split at h
+    · cases h
+    · split at h
+      · cases h
+      · split at h
+        · cases h
+        · split at h
+          · rename_i h1 h2 h3 h4 h5
+            exact ⟨by simpa using h1, by simpa using h2, by simpa using h3, by omega, h5⟩
+          · cases h
 
 end Neumann.Chain
